@@ -39,8 +39,11 @@ type capCore struct {
 	persistent bool // once a call has failed, every later call of the same kind fails as well
 	// readErr: the error a failing Read returns instead of the harness's own (a cut-off decompressing or limited
 	// stream fails with a bare io.ErrUnexpectedEOF, which a copy loop must not take for the end of the data)
-	readErr    error
-	partialDir bool // a failing directory read delivers the first half of its entries together with the error (like os.ReadDir)
+	readErr error
+	// notExistBelow: a fault on a name strictly below this path answers with a *PathError wrapping ErrNotExist (the
+	// entry "vanished"), the error value recursive helpers like to swallow
+	notExistBelow string
+	partialDir    bool // a failing directory read delivers the first half of its entries together with the error (like os.ReadDir)
 }
 
 // armNext makes the next call of the given kind fail (once); disarm takes the plan back.
@@ -83,6 +86,10 @@ func (c *capCore) hit(kind, name string) error {
 		c.fired = kind
 		c.t.Stat("fault:fs." + kind)
 		c.t.Logf("FAULT: primitive call %d %s(%q) fails", i, kind, name)
+		if c.notExistBelow != "" && strings.HasPrefix(name, c.notExistBelow+"/") {
+			c.t.Stat("fault:fs." + kind + "(ErrNotExist)")
+			return &hackpadfs.PathError{Op: strings.ToLower(kind), Path: name, Err: hackpadfs.ErrNotExist}
+		}
 		if kind == "file.Read" && c.readErr != nil {
 			c.t.Stat("fault:fs.file.Read(" + c.readErr.Error() + ")")
 			return c.readErr
@@ -535,6 +542,11 @@ func runC08(t *T) {
 	if c.Chance(1, 2) {
 		coreM.faultAt = c.Weighted(5, 4, 3, 2, 2, 1, 1, 1)
 	}
+	// the files the masked FS hands out expose all optional methods, none, or only Write (the helpers' file-level
+	// fallbacks then have to do without Truncate, Seek, ...)
+	if helper == "WriteFullFile" {
+		coreM.fileMode = []string{"all", "only:Write"}[c.Draw(2)]
+	}
 	masked := newCapFS(coreM, mask)
 	twin := newCapFS(coreT, rel)
 	g := newFsGen(t, []string{"d", "f", "e", "x"}, 3)
@@ -546,6 +558,9 @@ func runC08(t *T) {
 	}
 	if innerKind == 1 && o.Kind == "Symlink" {
 		return // symbolic links of the OS-backed FS are outside the snapshot's reach
+	}
+	if helper == "RemoveAll" && coreM.faultAt >= 0 && c.Chance(1, 2) {
+		coreM.notExistBelow = o.P
 	}
 	t.Logf("inner=%s helper=%s exposed=%v of %v fault-at=%d op=%s", []string{"mem", "os.FS"}[innerKind], helper, mask, rel, coreM.faultAt, o)
 	call := func(fs hackpadfs.FS, core *capCore) Out {
